@@ -681,24 +681,28 @@ theorem Grown.nHydro (g : Grown nmol ms k sp sp' close close') :
 
 theorem Grown.norbAt (g : Grown nmol ms k sp sp' close close') {m : Nat} (hm : m < nmol) :
     norbAt (ms + k) sp' m = norbAt ms sp m := by
+  have h1 : ((List.range (ms + k)).countP fun a => decide (1 < sp' (m * (ms + k) + a))) =
+      ((List.range ms).countP fun a => decide (1 < sp (m * ms + a))) := by
+    rw [countP_range_add]
+    · rw [List.countP_eq_length_filter, List.countP_eq_length_filter]
+      congr 1
+      apply filter_congr'
+      intro a ha
+      rw [g.sp_old hm (List.mem_range.mp ha)]
+    · intro a h1 h2
+      simp [g.sp_new hm h1 h2]
+  have h2 : ((List.range (ms + k)).countP fun a => sp' (m * (ms + k) + a) == 1) =
+      ((List.range ms).countP fun a => sp (m * ms + a) == 1) := by
+    rw [countP_range_add]
+    · rw [List.countP_eq_length_filter, List.countP_eq_length_filter]
+      congr 1
+      apply filter_congr'
+      intro a ha
+      rw [g.sp_old hm (List.mem_range.mp ha)]
+    · intro a h1 h2
+      simp [g.sp_new hm h1 h2]
   unfold Parser.norbAt
-  congr 2
-  · rw [countP_range_add]
-    · rw [List.countP_eq_length_filter, List.countP_eq_length_filter]
-      congr 1
-      apply filter_congr'
-      intro a ha
-      rw [g.sp_old hm (List.mem_range.mp ha)]
-    · intro a h1 h2
-      simp [g.sp_new hm h1 h2]
-  · rw [countP_range_add]
-    · rw [List.countP_eq_length_filter, List.countP_eq_length_filter]
-      congr 1
-      apply filter_congr'
-      intro a ha
-      rw [g.sp_old hm (List.mem_range.mp ha)]
-    · intro a h1 h2
-      simp [g.sp_new hm h1 h2]
+  rw [h1, h2]
 
 theorem Grown.nValence (g : Grown nmol ms k sp sp' close close') (tore : Nat → Nat) (h0 : tore 0 = 0)
     {m : Nat} (hm : m < nmol) : nValence (ms + k) sp' tore m = nValence ms sp tore m := by
